@@ -26,7 +26,23 @@ Decided:
          violation: werkzeug reads naive datetimes as UTC, so such a value is off by the server's UTC offset.  Decided over
          an abstract domain of *kinds* of time value (epoch / struct_time / naive-UTC / naive-local / aware), never
          over instants; any other construction is an ANALYSIS-ERROR.
-Declined: byte equality of bodies, MIME guessing, date formatting.
+  R14.g  no history (c14_state.py): the path handed to build_file_response is, on every path, the result of the find_file call
+         made by *this* request (StaticFileRoute: the configured self.file_path); no function on the serving path stores a
+         value of the request / of a probe of the file system in an object that outlives the request (self, the class, a
+         module-level object, a function attribute, a mutable default, a global); no serving function is wrapped by a
+         result cache (functools.lru_cache / cache, a decorator of the package whose wrapper stores into its enclosing
+         scope, ``f = cache(f)`` at module level).  A later request must see the directory tree as it is then.
+  R14.h  one file (c14_faith.py): the regular-file test, open(), getsize() and the type guess all name the path parameter,
+         which is never re-bound; the file is opened read-only in binary mode.
+  R14.i  first search directory wins (c14_faith.py): find_file visits search_paths in the given order and leaves the
+         search at the first regular file; StaticApplication.__init__ keeps the order it was given.
+  R14.j  a 304 carries no body (c14_faith.py): the response marked 304 is the one returned, it was created with an empty
+         body, and no store to its body reaches that return.
+  R14.k  like with like (c14_faith.py): the time compared with If-Modified-Since and the time sent as Last-Modified are
+         the same function of the file (same callee, same arguments after binding defaults and folding constants).
+  R14.b  also covers every HTTP error raised by a function of the module the endpoints call (public helpers).
+Declined: byte equality of bodies, MIME guessing, date formatting; that the handle is closed on every error path between
+open() and the response (a resource clause, not part of the statement: the tree itself leaks it when the stat fails).
 
 Constructs are located by role, not by spelling.  The loader dissolves private helpers into their callers; on top of
 that the rules follow: tests held in a single-assignment local (``flag = X.startswith('/')`` ... ``if flag``,
@@ -469,18 +485,29 @@ def _group(rep, fn, *args):
 def run(rep):
     rep.decide('R14.a sanitise-then-use in find_file; R14.b non-breaking 403/404 discipline; R14.c filesystem calls '
                'under OSError handlers; R14.d 304 / success header assignments; R14.e route shape; R14.f the served '
-               'modification time is constructed in UTC, from the file\'s own mtime, in whole seconds')
-    rep.decline('byte equality of served bodies, MIME guessing, Last-Modified formatting (values)')
+               'modification time is constructed in UTC, from the file\'s own mtime, in whole seconds; R14.g no history: the '
+               'served path is looked up by this request, nothing a request learns outlives it, no result cache around a serving '
+               'function; R14.h test / open / size / type guess name the one served path, binary read-only open; R14.i search '
+               'paths visited in order, first regular file wins, order kept by the application; R14.j the 304 answer has no body; '
+               'R14.k Last-Modified and the 304 comparison are computed the same way')
+    rep.decline('byte equality of served bodies, MIME guessing, Last-Modified formatting (values); closing the handle on every error '
+                'path between open() and the response (resource clause, not in the statement)')
     rep.assume('os.path.normpath leaves ".." components only as a prefix of a relative path (POSIX semantics)')
     rep.assume('os.path.isfile never raises')
     _group(rep, _r14a)
     _group(rep, _r14b)
+    _group(rep, _r14b_helpers)
     _group(rep, _r14c)
     _group(rep, _r14d)
     _group(rep, _r14e)
     _group(rep, _r14f)
     _group(rep, _r14g_provenance)
     _group(rep, _r14g_state)
+    from . import c14_faith
+    _group(rep, c14_faith.r14h)
+    _group(rep, c14_faith.r14i)
+    _group(rep, c14_faith.r14j)
+    _group(rep, c14_faith.r14k)
 
 
 def _find_file_call(st):
@@ -591,9 +618,24 @@ def _r14a(rep):
             return False
         g = v.args[0]
         return any(is_isfile_of(c, g.elt) for gen in g.generators for i in gen.ifs for c, p_ in expand_conds([(i, True)]) if p_ is True)
+    def bound_regular(v):
+        """``found = <p>`` under isfile(<p>) ... ``return found``: every binding of the returned local is None or a value
+        tested to be a regular file where it is bound"""
+        if not isinstance(v, ast.Name) or v.id in params:
+            return False
+        some = False
+        for s_, val, idx in assigned_value(ff.node, v.id):
+            if idx is not None or not isinstance(val, ast.expr):
+                return False
+            if isinstance(val, ast.Constant) and val.value is None:
+                continue
+            if not has_cond(_conds(ff, s_), lambda t: is_isfile_of(t, val), True):
+                return False
+            some = True
+        return some
     for r in frets:
         cs = _conds(ff, r)
-        ok = ok and (has_cond(cs, lambda t: is_isfile_of(t, r.value), True) or first_regular(r.value))
+        ok = ok and (has_cond(cs, lambda t: is_isfile_of(t, r.value), True) or first_regular(r.value) or bound_regular(r.value))
     rep.check('R14.a', fkey(ff, 'only regular files'), ok, 'a path is returned only under isfile(<that path>)' if ok else
               'find_file can return a path that is not a regular file (exists()/isdir/no test): directories shadow files of later '
               'search paths and reach the 304 branch', st, frets[0] if frets else ff.node)
@@ -630,6 +672,27 @@ def _r14b(rep):
               'a None result of find_file is not turned into NotFound', st, gfr.node)
     # the bfr call only happens with a found path: not reachable when result is None
     rep.floor('R14.b', 7)
+
+
+def _r14b_helpers(rep):
+    """Functions of the module the endpoints call and the front-end did not dissolve (public helpers): the same
+    non-breaking discipline for every HTTP error they raise."""
+    repo = rep.repo
+    st = repo.mod(STATIC)
+    serving = [st.func('build_file_response'), st.func('StaticApplication.get_file_response'),
+               st.func('StaticFileRoute.get_file_response')]
+    from . import c14_state
+    for fi in c14_state.serving_functions(repo, st, serving[1:]):
+        if any(fi is x for x in serving):
+            continue
+        for r in raises_of(fi):
+            nb = _is_nonbreaking_http(fi, r)
+            if nb is None and _rtype(fi, r) not in HTTP_ERRS:
+                continue        # not an HTTP error: what becomes of it is judged where it is caught (R14.a / R14.c)
+            rep.check('R14.b', fkey(fi, r) + '#' + ','.join(cond_texts(conds(fi, r)))[:80], nb is True,
+                      '%s is raised non-breaking' % _rtype(fi, r) if nb is True else
+                      '%s raised without is_breaking=False in %s, which serves static files: later (overlapping) static applications '
+                      'are never tried' % (_rtype(fi, r), fi.qualname), st, r)
 
 
 def _r14c(rep):
